@@ -497,39 +497,39 @@ Proof.
 Qed.
 
 Lemma step_J g s e :
-  cfg_consistent g -> flat_cfg g -> g_versioning g = true -> g_native g = false ->
+  cfg_consistent g -> flat_hier g -> flat_cfg g -> g_versioning g = true -> g_native g = false ->
   J g s -> trace_wf g s [e] -> J g (step g s e).
 Proof.
-  intros CC FL Hv Hn [IA [I3 [I4 I4c]]] [Hwf _]. destruct e as [objs ents assoc| | | |a]; simpl.
-  - split; [apply flush_all; assumption|]. split; [apply flush_Inv3; assumption|].
+  intros CC FH FL Hv Hn [IA [I3 [I4 I4c]]] [Hwf _]. destruct e as [objs ents assoc| | | |a]; simpl.
+  - rewrite (hier_pass_flat g _ FH). split; [apply flush_all; assumption|]. split; [apply flush_Inv3; assumption|].
     split; [apply flush_Inv4; assumption|].
     unfold Inv4c. rewrite flush_committed by exact Hv. exact I4c.
-  - split; [apply (step_all g s Commit CC IA)|]. split; [|split; exact I4].
+  - split; [apply (step_all g s Commit CC FH IA)|]. split; [|split; exact I4].
     unfold Inv3; simpl. repeat split; try constructor; try contradiction; auto. intros o [].
-  - split; [apply (step_all g s Rollback CC IA)|]. split; [|split; exact I4c].
+  - split; [apply (step_all g s Rollback CC FH IA)|]. split; [|split; exact I4c].
     unfold Inv3; simpl. repeat split; try constructor; try contradiction; auto. intros o [].
   - contradiction.
-  - split; [apply (step_all g s (RawAssoc a) CC IA)|]. rewrite Hv. simpl.
+  - split; [apply (step_all g s (RawAssoc a) CC FH IA)|]. rewrite Hv. simpl.
     destruct (u_live (s_uow s)); (split; [exact I3|]; split; [exact I4 | exact I4c]).
 Qed.
 
 Theorem run_J g : forall evs s,
-  cfg_consistent g -> flat_cfg g -> g_versioning g = true -> g_native g = false ->
+  cfg_consistent g -> flat_hier g -> flat_cfg g -> g_versioning g = true -> g_native g = false ->
   J g s -> trace_wf g s evs -> J g (fold_left (step g) evs s).
 Proof.
-  induction evs as [|e evs IH]; intros s CC FL Hv Hn HJ Hwf; simpl; [exact HJ|].
+  induction evs as [|e evs IH]; intros s CC FH FL Hv Hn HJ Hwf; simpl; [exact HJ|].
   destruct Hwf as [H1 H2]. apply IH; try assumption.
   apply step_J; try assumption. simpl. auto.
 Qed.
 
 (* C01 for every reachable state of every well-formed trace *)
 Theorem reachable_c01 g evs :
-  cfg_consistent g -> flat_cfg g -> g_versioning g = true -> g_native g = false ->
+  cfg_consistent g -> flat_hier g -> flat_cfg g -> g_versioning g = true -> g_native g = false ->
   trace_wf g state0 evs ->
   forall c k, (c < length (g_classes g))%nat -> k_versioned (cls_of g c) = true ->
     c01_rel g (d_live (s_db (run g evs))) (d_vt (s_db (run g evs))) c k.
 Proof.
-  intros CC FL Hv Hn Hwf. destruct (run_J g evs state0 CC FL Hv Hn (J_init g) Hwf) as [_ [_ [I4 _]]].
+  intros CC FH FL Hv Hn Hwf. destruct (run_J g evs state0 CC FH FL Hv Hn (J_init g) Hwf) as [_ [_ [I4 _]]].
   exact I4.
 Qed.
 
